@@ -4,7 +4,7 @@ from facts import strip_generics, op_local, op_const, const_int, last_seg, ty_he
 from engine import site
 import gate
 
-CONFIGS = ['prod']
+CONFIGS = ['prod', 'testutils']
 EXPLANATION = (
     'Decided clauses: D0 what diff lists — in the per-key test every push into a result vector is guarded, on each of the two '
     '"replica holds something" branches, by the STRICT edge held < peer (equal timestamps are the normal state of synchronised '
@@ -282,6 +282,24 @@ def check_D1(ctx, facts, rule='C05.D1'):
                         pl = op_place(s['rv']['op'])
                         if pl and b.local_ty(pl['l']) == P + 'KeyspaceDiff' and pl['p'] and isinstance(pl['p'][-1], dict) and 'f' in pl['p'][-1]:
                             pos[fields[pl['p'][-1]['f']]] = i + 1
+    # (3b) every listed change is exchanged: from the Some edge of the loop over the changes no path comes back to the loop
+    #      (or leaves it) without passing begin_keyspace_sync — a skipped change is a difference that is never applied
+    for b in rm:
+        flow3 = Flow(b)
+        calls3 = list(b.calls())
+        syncs = [bb for bb, t in calls3 if cname(t) == P + 'begin_keyspace_sync']
+        for nb, nt in [(bb, t) for bb, t in calls3 if cname(t) == 'core::iter::traits::iterator::Iterator::next']:
+            ity = b.local_ty(op_local(nt['args'][0])) if op_local(nt['args'][0]) is not None else ''
+            if 'KeyspaceDiff' not in ity and 'KeyspaceDiff' not in b.local_ty(nt['dest']['l']):
+                continue
+            re3 = ResultEdges(b, flow3, nb, include_option=True)
+            starts = [e[1] for e in re3.ok]
+            R = b.reachable_from(starts, avoid=syncs) if starts else set()
+            skipped = bool(starts) and (nb in R or bool(set(b.return_blocks()) & R))
+            ctx.ob(rule, 'hop3|every-change-exchanged', bool(starts) and bool(syncs) and not skipped, site(b, nt['cs']),
+                   'every change listed for a peer is handed to begin_keyspace_sync (no iteration skips it)' if starts and syncs and not skipped else
+                   'an iteration over the listed changes can skip begin_keyspace_sync: that difference (e.g. one that only lists removals) is never applied, '
+                   'and if its stamp is recorded as synced it is never retried')
     bks = facts.body(P + 'begin_keyspace_sync')
     if bks is None or 'removed' not in pos or 'modified' not in pos:
         ctx.bad(rule, 'hop3|repair_members', '', 'cannot see how repair_members hands the two lists to begin_keyspace_sync (fail closed)')
